@@ -513,7 +513,16 @@ pub fn eval_oracle(c: &EvalCase, cx: &mut CaseCtx) -> Result<(), String> {
         cx.class("rule_id_not_constructible");
         return Ok(());
     };
-    let raw = raw_event(&c.event);
+    // every other event is handed over in a different spelling of the same JSON value (key
+    // order, escaped strings, whitespace): evaluation depends on the value only
+    let h = vf_engine::fnv(c.event.to_string().as_bytes());
+    let raw = if h % 2 == 0 {
+        raw_event(&c.event)
+    } else {
+        cx.class("event_text_respelled");
+        let text = vf_ref::respell::respell(&c.event, (h >> 8) as u8, (h >> 16) as u8 % 15 + 1, &mut 0);
+        Raw::from_json_string(text).map_err(|e| format!("harness: respelled event not valid JSON: {e}"))?
+    };
     let flat = FlattenedJson::from_raw(&raw);
     let rf = ref_flatten(&c.event);
     flat_agrees(&flat, &rf, &c.event)?;
